@@ -563,8 +563,13 @@ def run_object_history(ctx: Ctx, rng, n):
                     fwd = r.randint(0, 6)
                     res = (sol.expand_square_solution(fwd) if kind == "xs" else sol.expand_triangular_solution(fwd))[1:]
                     outs.append(("M", [np.array(x, dtype=float) for x in res])); ops.append(f"{kind} {fwd}")
+            except np.linalg.LinAlgError:
+                # the random model has a (numerically) singular prediction-error covariance for this data: not a history matter
+                ctx.count("object-history:singular_F_skipped"); ops = None; break
             except Exception as e:
                 fail(ctx, "object-history-raises", {"stream": "object-history", "mc": mc, "ops": ops}, f"{kind}: {e!r}"[:300]); break
+        if ops is None:
+            continue
         lines.append(" ".join(head + [str(len(ops))] + ops)); keep.append((mc, ops, outs))
         ctx.nontriv(("object-history", json.dumps(mc, sort_keys=True), tuple(ops)))
         if i < 1:
